@@ -3,7 +3,6 @@ CONSTANTS Threads = {0, 1}
           Programs = {"pA", "pB", "pC", "pR"}
           Envs = {"e1", "e2"}
           Broken = FALSE
-          Latched = FALSE
+          Latched = TRUE
 INVARIANT Independent
-INVARIANT PrintSchedules
 CHECK_DEADLOCK FALSE
